@@ -14,10 +14,10 @@ Lemma fold_flags rs : forall t,
 Proof.
   induction rs as [|[k s] rs IH]; intros t; cbn [run_results fold_left existsb forallb].
   - rewrite !orb_false_r, andb_true_r. repeat split.
-  - specialize (IH (step t (k, s))). cbn zeta in IH. unfold run_results in IH.
+  - specialize (IH (law_step t (k, s))). cbn zeta in IH. unfold run_results in IH.
     destruct IH as (H0 & H1 & H2 & H3 & H4 & H5 & H6 & H7).
     rewrite H0, H1, H2, H3, H4, H5, H6, H7. clear.
-    unfold step, apply_result, is_expl, is_impl, blocker_failed, evblocker_failed, fired, active, is_s.
+    unfold law_step, apply_result, is_expl, is_impl, blocker_failed, evblocker_failed, fired, active, is_s.
     destruct k as [| |[|]]; cbn [fst snd t_value found_explicit any_explicit_fired found_active
       found_implicit all_implicits_fired blocked events_blocked implb];
       repeat split; try btauto.
